@@ -164,7 +164,27 @@ def _expansion_groups(trunk):
     return groups, set(nodes)
 
 
+def _site(err) -> str:
+    """Innermost forml frame of an exception: `<module>.<function>` (part of the violation signature)."""
+    import os
+    import traceback
+
+    site = '?'
+    for frame in traceback.extract_tb(err.__traceback__):
+        if os.sep + 'forml' + os.sep in frame.filename:
+            site = f'{os.path.splitext(os.path.basename(frame.filename))[0]}.{frame.name}'
+    return site
+
+
 def impl(ast):
+    """`_impl`, an exception of the real code mapped to ('exception', class, message, site)."""
+    try:
+        return _impl(ast)
+    except Exception as err:  # pylint: disable=broad-except
+        return 'exception', type(err).__name__, str(err)[:300], _site(err)
+
+
+def _impl(ast):
     """Real composition: outputs of both compiled segments + trained states; and two expansions of the
     same expression for the independence clause."""
     comp = pg.composition(ast)
@@ -232,6 +252,22 @@ CORPUS_API = [
     ['seq', ['seq', ['wrap', [1, True], NONE, NONE], ['custom', [2, True]]], ['mapreduce', [[3, True], [4, False]], 5]],
     ['seq', ['custom', [1, True]], ['stack', [['custom', [6, True]]], 2, 2, 3, 4, 5]],
     ['stack', [['seq', ['custom', [5, False]], ['wrap', NONE, [6, True], [6, True]]]], 2, 1, 2, 3, 4],
+]
+
+# minimised past failures, evaluated bare (no probe: the train path must end where the expression ends).
+# C03-X1: the train path ends in a dangling Future behind a MapReduce with a trained mapper
+CORPUS_BARE = [
+    ['seq', ['mapreduce', [[1, True], [2, False]], 3], ['seq', ['wrap', NONE, [4, False], NONE], ['wrap', NONE, [5, False], NONE]]],
+    ['seq', ['mapreduce', [[1, False], [2, True]], 3], ['seq', ['wrap', [4, False], NONE, NONE], ['wrap', [5, False], NONE, NONE]]],
+    ['seq', ['mapreduce', [[1, True], [2, True]], 3], ['seq', ['custom', [4, False]], ['seq', ['wrap', NONE, [5, False], NONE], ['wrap', NONE, [6, True], NONE]]]],
+    # C03-X2: Segment.copy of a segment ending in a dangling Future (scope / base of FullStack)
+    ['stack', [['seq', ['wrap', NONE, NONE, [5, False]], ['seq', ['wrap', [6, False], NONE, NONE], ['wrap', NONE, NONE, [7, False]]]]], 2, 1, 2, 3, 4],
+    ['seq', ['seq', ['wrap', NONE, NONE, [1, True]], ['seq', ['wrap', [2, True], NONE, NONE], ['wrap', [3, True], NONE, NONE]]],
+     ['stack', [['mapreduce', [[8, False]], 9]], 2, 4, 5, 6, 7]],
+    ['seq', ['seq', ['mapreduce', [[1, True], [2, False]], 3], ['seq', ['wrap', NONE, NONE, [4, False]], ['wrap', NONE, NONE, [5, False]]]],
+     ['stack', [['wrap', NONE, [10, True], [10, True]]], 2, 6, 7, 8, 9]],
+    ['seq', ['seq', ['wrap', NONE, [1, True], [1, True]], ['seq', ['wrap', NONE, NONE, [2, False]], ['wrap', NONE, NONE, [3, False]]]],
+     ['stack', [['wrap', NONE, [10, True], [10, True]]], 2, 6, 7, 8, 9]],
 ]
 
 # malformed stream: operators that refuse to compose (model: Err, implementation: exception class)
@@ -316,8 +352,18 @@ class C03(fw.Check):
                 continue
             seen.add(key)
             cases.append(with_probe(ast))
-            # a third also bare (the exhaustive 4-leaf sweep of the thorough tier only with the probe: budget)
-            if rng.random() < 0.34 and (self.quick or pg.leaves(ast) != 4 or pg.kinds(ast) != {'wrap'}):
+            # a third also bare; thorough: every expression up to 3 leaves also bare, the exhaustive 4-leaf sweep only
+            # with the probe (budget)
+            bare = rng.random() < 0.34
+            if not self.quick:
+                nl = pg.leaves(ast)
+                bare = nl <= 3 or (bare and (nl != 4 or pg.kinds(ast) != {'wrap'}))
+            if bare:
+                cases.append(ast)
+        for ast in CORPUS_BARE:
+            ast = pg.retag(ast)
+            if sexp.dumps(ast) not in seen:
+                seen.add(sexp.dumps(ast))
                 cases.append(ast)
         return cases
 
@@ -351,7 +397,9 @@ class C03(fw.Check):
         ok = True
         case = {'expr': ast}
         if isinstance(real, tuple) and real and real[0] == 'exception':
-            self.violate(f'composition of a library expression raised {real[1]}: {real[2]}', case, f'exception-{real[1]}')
+            site = real[3] if len(real) > 3 else '?'
+            self.violate(f'composition of a library expression raised {real[1]} in {site}: {real[2]}', case,
+                         f'exception-{real[1]}@{site}')
             return False
         # model <-> implementation
         if 'error' in mrun:
@@ -521,10 +569,9 @@ class C03(fw.Check):
         if spec is None:
             return None
         with pg.isolated():
-            try:
-                real = impl(ast)
-            except Exception as err:  # pylint: disable=broad-except
-                return 'exception-' + type(err).__name__, str(err)[:200], None
+            real = impl(ast)
+        if isinstance(real, tuple) and real and real[0] == 'exception':
+            return f'exception-{real[1]}@{real[3]}', real[2][:200], None
         for part in ('train', 'apply', 'states'):
             if real[part] != spec[part]:
                 return 'coherence-' + part, real[part], spec[part]
